@@ -171,7 +171,10 @@ class TermAlg:
 
     # -- constructors ------------------------------------------------------
     def const(self, c):
-        return _canon_const(c)
+        c = _canon_const(c)
+        if isinstance(c, float) and c != c:
+            return self.nan()
+        return c
 
     def read(self, name, idx):
         return ("rd", name, tuple(idx))
